@@ -189,6 +189,18 @@ func runFault(t *faultTask) *faultResult {
 				if err != nil {
 					dead = true
 					res.Reopen = "reopen inside history kept failing: " + err.Error()
+					// the plan injects at most 3 failures and Open was tried 6 times: the DB stays
+					// inaccessible although the failures stopped (a half-written record excepted:
+					// durable bytes were damaged by the fault itself)
+					partial := false
+					for _, f := range t.Faults {
+						if vstor.Mode(f.Mode) == vstor.ModePartial {
+							partial = true
+						}
+					}
+					if !partial && len(t.Faults) > 0 {
+						res.Viol = append(res.Viol, res.Reopen)
+					}
 					break
 				}
 				continue
@@ -621,6 +633,13 @@ func init() {
 					hist = append(hist, s)
 				}
 			}
+			// recovery under faults: close and reopen in the middle of the history, in states where
+			// one or two journals have to be replayed (the frozen buffer is still unflushed at Close)
+			for _, s := range genSeqs([]string{"Sput:a", "put:b", "w:+a,-b", "big"}, 2) {
+				if len(s) > 0 {
+					hist = append(hist, append(append([]string{}, s...), "re"), append(append([]string{}, s...), "re", "put:c"))
+				}
+			}
 			rd, rmax := 5, 6
 			if !quick {
 				rd, rmax = 7, 16
@@ -628,7 +647,7 @@ func init() {
 			runFaultCheck(c, "C08", cfgs, hist, false, !quick, richHistories(c, "C08", rd, rmax)...)
 			c.Coverage["rule"] = "per history (all sequences up to the depth over the alphabet plus 6 long histories, per configuration): one run per fault plan = k-th operation of each (kind, file type) seen in the fault-free baseline x {fail once, fail 3x, half-written write, performed-but-reported-failed, flipped read byte}; thorough adds ordered pairs of single faults on the short histories; oracle: contents while running and after clean close + fault-free reopen must be explained by all acknowledged writes plus some subset of the failed ones; distinct_nontrivial = distinct (history, plan) whose error surfaced to a client call"
 			c.Coverage["alphabet"] = c08Alpha
-			c.Assume = []string{"faults start after the initial Open", "the history runs on the default schedule; timers on the virtual clock (120 virtual seconds of settling after the history)", "a reopen failure after a half-written record is attributed to the fault (durable bytes damaged) and not reported"}
+			c.Assume = []string{"faults start after the initial Open; histories with 're' close and reopen the DB under the fault plan (Open retried up to 6 times)", "the history runs on the default schedule; timers on the virtual clock (120 virtual seconds of settling after the history)", "a reopen failure after a half-written record is attributed to the fault (durable bytes damaged) and not reported"}
 		},
 	})
 }
